@@ -44,7 +44,6 @@ class MemoryAccess:
                         self.server.parse_dm14(priority, pgn, sa, timestamp, data)
                         if not self.seed_security:
                             self.state = DMState.WAIT_RESPONSE
-                            self._ca.unsubscribe(self._listen_for_dm14)
                             if self._proceed_function is not None:
                                 self.proceed = self._proceed_function(
                                     self.server.command,
